@@ -179,11 +179,11 @@ def potable_real_stream(run):
                 if rv is None:
                     continue
                 ev, slope = rv
-                if abs(float(Fr(vals[k - 1])) - ev) > 0.6e-7 * abs(ev) + abs(slope) * 8 * math.ulp(r) * nr + 2 * eval_noise(f, r) + 1e-300:
+                if abs(float(Fr(vals[k - 1])) - ev) > 0.6e-7 * abs(ev) + abs(slope) * 8 * math.ulp(r) * nr + 2 * eval_noise(f, r) + 1e-99:
                     problem = "%s-%s : %s, energy %d (r=%r) printed %s, the expression's value is %r" % (a, b_, txt, k, r, vals[k - 1], ev)
                     break
                 ref = -r * slope
-                if abs(float(Fr(vals[nr + k - 1])) - ref) > 1e-5 * max(1.0, abs(ref)) + 1e-9 * abs(ev) * r:
+                if abs(float(Fr(vals[nr + k - 1])) - ref) > 1e-5 * max(1.0, abs(ref)) + 1e-9 * abs(ev) * r + 1e-99:
                     problem = "%s-%s : %s, force value %d (r=%r) printed %s, -r dV/dr = %r" % (a, b_, txt, k, r, vals[nr + k - 1], ref)
                     break
             if problem:
@@ -202,6 +202,12 @@ def real_stream(run):
         nr = 4 * rng.randint(2, 60 if run.quick else 400)
         cut = round(rng.uniform(2.0, 12.0), rng.choice([1, 2, 3]))
         pots = [real_potential(rng) for _ in range(rng.randint(1, 2))]
+        if i % 5 == 0:
+            # a short-ranged repulsion tabulated far beyond its range: energies and forces fall below 1e-99 (three-digit exponents) - the fields must stay 15 wide
+            from atsim.potentials import potentialforms as _pf
+            tiny = _pf.bornmayer(1000.0, round(rng.uniform(0.03, 0.05), 3))
+            pots.append(("tiny#%d" % i, tiny, lambda r, f=tiny: f.deriv(r)))
+            cut = round(rng.uniform(10.0, 14.0), 1)
         ps = [Potential("A%d" % j, "B", f) for j, (desc, f, fref) in enumerate(pots)]
         s = io.StringIO()
         DLPoly_PairTabulation(ps, cut, nr).write(s)
@@ -217,7 +223,7 @@ def real_stream(run):
             dq = Fr(cut) / (nr - 4)
 
             def close(printed, exact, extra=0.0):
-                return abs(float(Fr(printed)) - exact) <= 0.6e-7 * abs(exact) + extra + 1e-300
+                return abs(float(Fr(printed)) - exact) <= 0.6e-7 * abs(exact) + extra + 1e-99      # (magnitudes below 1e-99 do not fit the 15-character field and are written as zero)
             if ngrid != nr or not close(cutpot, cut) or abs(Fr(delpot) - dq) > Fr(6, 10 ** 9) * dq:
                 problem = "header %s %s %s vs delpot=%s cutpot=%s ngrid=%d" % (delpot, cutpot, ngrid, float(dq), cut, nr)
         for (desc, f, dref), (a, b, recs) in zip(pots, blocks):
@@ -242,7 +248,7 @@ def real_stream(run):
                     problem = "%s: energy %d printed %s, V(k*delpot)=%r" % (desc, k, vals[k - 1], ev)
                     break
                 ref = -r * slope
-                if abs(float(Fr(vals[nr + k - 1])) - ref) > 1e-5 * max(1.0, abs(ref)) + 1e-9 * abs(ev) * r:
+                if abs(float(Fr(vals[nr + k - 1])) - ref) > 1e-5 * max(1.0, abs(ref)) + 1e-9 * abs(ev) * r + 1e-99:
                     problem = "%s: force value %d printed %s, -r dV/dr = %r" % (desc, k, vals[nr + k - 1], ref)
                     break
         if problem:
